@@ -129,6 +129,16 @@ let handle kind a =
       (match decode_record (bytes_of_hex a.(0)) with
        | Ok r -> Some (short_or_digest (canon r))
        | Err e -> Some ("Err:" ^ errs e))
+  | "sub" ->
+      let sq = bytes_of_hex a.(0) in
+      let n = List.length sq in
+      let packed = pack_bases sq in
+      let mids = if n <= 12 then List.init (n + 1) (fun i -> i)
+        else List.filter (fun m -> m <= n) [0; 1; 2; 3; n / 2; n / 2 + 1; n - 3; n - 2; n - 1; n] in
+      let parts = List.map (fun mid ->
+        hex_of_bytes (sub_iter packed N0 (n_of_int mid)) ^ "/" ^
+        hex_of_bytes (sub_iter packed (n_of_int mid) (n_of_int n))) mids in
+      Some (short_or_digest (String.concat "," parts))
   | "tab" ->
       (match a.(0) with
        | "bases" ->
